@@ -338,7 +338,10 @@ fn run_parent(spec: &CheckSpec, tier: Tier, seed: u64) -> i32 {
         "violations": violations.len(),
         "inconclusive": inconclusive,
     });
-    let evdir = vdir.join("evidence");
+    // VERIF_EVIDENCE_DIR: runs against scratch copies (mutation probes) must not overwrite evidence
+    let evdir = std::env::var_os("VERIF_EVIDENCE_DIR")
+        .map(PathBuf::from)
+        .unwrap_or_else(|| vdir.join("evidence"));
     let _ = std::fs::create_dir_all(&evdir);
     std::fs::write(
         evdir.join(format!("{}.json", spec.id)),
